@@ -198,6 +198,12 @@ def injected_messages():
         return m.asbytes()
 
     return {
+        "disconnect": msg(c.cMSG_DISCONNECT, ("u", 2), ("s", "bye"), ("s", "en")),
+        "disconnect-badutf8": msg(c.cMSG_DISCONNECT, ("u", 2), ("s", b"\xff\xfe"), ("s", "")),
+        "disconnect-short": msg(c.cMSG_DISCONNECT),
+        "channel-close-99": msg(c.cMSG_CHANNEL_CLOSE, ("u", 99)),
+        "channel-eof-99": msg(c.cMSG_CHANNEL_EOF, ("u", 99)),
+        "unimplemented": msg(c.cMSG_UNIMPLEMENTED, ("u", 3)),
         "service-accept-userauth": msg(c.cMSG_SERVICE_ACCEPT, ("s", "ssh-userauth")),
         "service-accept-bogus": msg(c.cMSG_SERVICE_ACCEPT, ("s", "bogus")),
         "userauth-success": msg(c.cMSG_USERAUTH_SUCCESS),
@@ -562,7 +568,8 @@ def run(ctx):
             for name in inj:
                 for flavour in (False, True, "ki-srt") if victim == "client" else (False,):
                     early_srt = flavour in (True, "ki-srt") and idx in (2, 3)  # before the first auth call
-                    if early_srt or (idx + len(name)) % (1 if ctx.thorough else 3) == 0:
+                    ender = name.startswith(("disconnect", "channel-", "unimplemented")) and idx in (3, 4, 5, 6)
+                    if early_srt or ender or (idx + len(name)) % (1 if ctx.thorough else 3) == 0:
                         jobs.append((victim, idx, "inject:" + name, (ctx.seed, victim, idx, name).__repr__(), None, None,
                                      flavour))
         for b in BANNERS:
